@@ -69,6 +69,9 @@ class Solution:
         self._projects = {}
 
     def __setitem__(self, key, value):
+        # Projects are identified (GUID, project file) by their names.
+        if any(i.name == value.name for i in self):
+            raise ValueError('project {!r} already exists'.format(value.name))
         value.set_uuid(self._uuids)
         self._projects[key] = value
 
